@@ -27,8 +27,8 @@ func (*c30) ID() string { return "C30" }
 func (*c30) Rule() string {
 	return "(a) histories of 1..5 programs (programs that exit, fail, set -e/-u/-f/-o pipefail, shopt -s, define traps, functions, aliases, arrays, readonly/exported variables, cd into subdirectories, change $@, redirect with exec, leave finished background jobs) run on one Runner, then Reset, then a program P; the same P on a new Runner with the same options in a directory holding a copy of the files the history left behind. Oracle: stdout of P, the error value, Runner.Vars, the printed Runner.Funcs, Dir and Params are equal. (b) a program without an EXIT trap run as a whole file, versus its top-level statements run one Run call at a time until Exited() reports true. Oracle: same stdout, same Vars and same final status. Scratch directory names are normalised. Non-trivial: the history has a state-changing program or the file has >= 3 statements; distinct: hash of the case."
 }
-func (*c30) NumCases(tier string) int      { return tierN(tier, 1500, 60000) }
-func (*c30) MinNontrivial(tier string) int { return tierN(tier, 700, 25000) }
+func (*c30) NumCases(tier string) int      { return tierN(tier, 1500, 30000) }
+func (*c30) MinNontrivial(tier string) int { return tierN(tier, 700, 12000) }
 func (*c30) New() any                      { return &ProgCase{} }
 func (*c30) CaseTimeout() time.Duration    { return 180 * time.Second }
 func (*c30) Assumptions() []string {
@@ -146,6 +146,9 @@ func (p *c30) Run(payload any) mon.Result {
 	if c.Source == "stmtwise" {
 		if strings.Contains(c.Src, "EXIT") {
 			return mon.Result{Verdict: mon.OutOfDomain, Reason: "has-exit-trap"}
+		}
+		if len(f.Stmts) == 0 {
+			return mon.Result{Verdict: mon.OutOfDomain, Reason: "no-statements"}
 		}
 		outA, outB := &lockedBuf{}, &lockedBuf{}
 		ra, e1 := newStateRunner(p.env.Build, dirA, outA, params)
